@@ -158,6 +158,31 @@ def is_lang(label):
     return bool(m) and ascii_upper(m.group(1)) in iso() and ascii_upper(m.group(2)) in iso()
 
 
+def upper_only_code(label):
+    """KF-C06-5's class: a label 'xx' / 'xx-yy' (as fingerprint_url sees it, i.e. after str.lower) that is NOT a code - it
+    holds a non-ASCII character - but whose halves str.upper() maps into the ISO set: dotless i (U+0131, upper 'I') and
+    long s (U+017F, upper 'S') are the only characters with a one-character ASCII upper-case form"""
+    lab = label.lower()
+    halves = lab.split("-")
+    return (not lab.isascii()) and len(halves) in (1, 2) and all(len(h) == 2 and h.upper() in iso() for h in halves)
+
+
+def lookalike_codes():
+    """every ISO code with its I / S written as dotless i / long s, the other letter in lower case
+    ('\u0131s' for IS, 's\u017f' for SS, ...), and the Kelvin sign (U+212A, str.lower gives 'k': a case variant of
+    the code, the positive half applies) for K"""
+    out = []
+    for c in sorted(iso()):
+        lo = c.lower()
+        for a, b in (("i", "\u0131"), ("s", "\u017f"), ("k", "\u212a")):
+            if a in lo:
+                out.append(lo.replace(a, b))
+                if lo.count(a) == 2:
+                    out.append(lo[0] + b)
+                    out.append(b + lo[1])
+    return out
+
+
 # ---------------------------------------------------------------------------------------
 # corpus: minimal inputs of the defects fixed for this property (a revert must be caught)
 # ---------------------------------------------------------------------------------------
@@ -199,6 +224,9 @@ CORPUS = [
     _c("youtube.com/watch?v=abcdefghijk&t=1", ["swap", "com", "co.uk"], ss=True),
     _c("http://fr.com/", ["swap", "com", "co.uk"], ss=True),
     _c("https://www.facebook.com/PERMALINK.PHP?story_fbid=1&id=2", ["norm", "escape-all", 0], pa=True),
+    # KF-C06-5: str.upper() takes dotless i / long s for I / S
+    _c("http://a.com/x", ["label", "\u0131s"]), _c("http://a.com/x", ["label", "\u017fe"]), _c("http://a.com/x", ["label", "fr-\u017fe"]),
+    _c("http://a.com/x", ["label", "\u212ae"]),
 ]
 
 FIXED_BASES = [
@@ -279,6 +307,15 @@ def cases(rng, tier):
         for lab in NON_LANG + ["FR", "Fr", "fr-FR", "FR-fr", "EN-us", "pt-BR", "zh-CN"]:
             for ss, pa in grid:
                 yield _c(u, ["label", lab], ss, pa)
+    # labels that only str.upper() takes for codes (dotless i, long s), in either half; Kelvin sign (str.lower: 'k')
+    looks = lookalike_codes()
+    for u in LABEL_HOSTS[:2] if quick else LABEL_HOSTS:
+        for lab in looks:
+            yield _c(u, ["label", lab], False, False)
+    for lab in looks:
+        yield _c(LABEL_HOSTS[0], ["label", rng.choice(codes).lower() + "-" + lab], False, False)
+        yield _c(LABEL_HOSTS[3], ["label", lab + "-" + rng.choice(codes)], False, rng.random() < 0.3)
+        yield _c(LABEL_HOSTS[1], ["label", lab + "-" + rng.choice(looks)], rng.random() < 0.3, False)
     npairs = 300 if quick else 6000
     for _ in range(npairs):
         a, b = rng.choice(codes), rng.choice(codes)
@@ -347,6 +384,10 @@ def random_T(rng, u):
             lab = rng.choice(codes) + "-" + rng.choice(codes)
         elif x < 0.8:
             lab = rng.choice("abcdefghijklmnopqrstuvwxyz") + rng.choice("abcdefghijklmnopqrstuvwxyz")
+        elif x < 0.84:
+            lab = rng.choice(lookalike_codes())
+            if rng.random() < 0.4:
+                lab = rng.choice([lab + "-" + rng.choice(codes), rng.choice(codes).lower() + "-" + lab])
         else:
             lab = rng.choice(NON_LANG)
         return ["label", tf.flip(lab, rng, 0.3)]
@@ -554,7 +595,8 @@ def oracle(case):
         # of the host is normalized as it is without the label
         if not nu or nv != lab + "." + nu:
             return None
-        if is_lang(T[1]) and nu.count(".") >= 1:
+        # (the label is judged as fingerprint_url sees it, after str.lower: the case clause; 'K' (Kelvin sign) + 'e' is 'ke')
+        if is_lang(lab) and nu.count(".") >= 1:
             # reading: *a* leading label — the base host does not start with a second one
             if nu.count(".") >= 2 and is_lang(nu.split(".")[0]):
                 return None
@@ -563,7 +605,7 @@ def oracle(case):
         # on the host when the suffix is kept)
         if not ss and first_label(tv) != lab:
             return "fingerprint_url(%r) == %r: the label %r (%s) was stripped" % (
-                v, sv, T[1], "not a country code" if not is_lang(T[1]) else "only one label remains after it")
+                v, sv, T[1], "not a country code" if not is_lang(lab) else "only one label remains after it")
         return None
     if k == "swap":
         if not ss:
@@ -653,6 +695,12 @@ def kf_lang_vs_suffix(case, failure):
     return is_lang(d) and (case["T"][1].count(".") == 0) != (case["T"][2].count(".") == 0)
 
 
+def kf_unicode_upper_code(case, failure):
+    """negative half: a two-letter (or xx-yy) label that is not a country code - it holds dotless i / long s - is stripped
+    because the code asks `label.upper() in ISO_3166_1_COUNTRIES_ALPHA_2` with the Unicode str.upper()"""
+    return case["T"][0] == "label" and upper_only_code(case["T"][1]) and "(not a country code) was stripped" in failure
+
+
 # ---------------------------------------------------------------------------------------
 def nontrivial(case):
     u, v = _pair(case)
@@ -668,7 +716,9 @@ def classify(case):
     if k == "case":
         labs.append("case:" + T[1])
     elif k == "label":
-        labs.append("label:" + ("iso" if is_lang(T[1]) else "not-iso") + (":xx-yy" if "-" in T[1] else ""))
+        labs.append("label:" + ("iso" if is_lang(T[1].lower()) else "not-iso") + (":xx-yy" if "-" in T[1] else ""))
+        if not T[1].isascii():
+            labs.append("label:upper-only-code" if upper_only_code(T[1]) else "label:non-ascii")
     elif k == "norm":
         labs.append("norm:" + T[1])
     elif k == "port":
